@@ -1,6 +1,6 @@
 (* C14 — empty content is dropped by default and kept on request, never the reverse (forest level). *)
 From Mammoth Require Import Html Writer HtmlTables HtmlStrip.
-From Mammoth Require Import Api Cli Convert ConvertSpec MiscSpec MiscFacts.
+From Mammoth Require Import Api Cli Convert ConvertSpec MiscSpec MiscFacts EmptySpec EmptyFacts.
 Local Open Scope N_scope.
 
 (* a node disappears exactly when it has no content: no non-empty text, no force-write marker
@@ -64,6 +64,35 @@ Example C14_witness :
   = [Elem p [Elem br []]; Elem p [Force]].
 Proof. vm_compute. reflexivity. Qed.
 
+(* ---------- the FINAL forest (after strip_empty AND collapse), for every document and every option combination ----------
+   no element of the output lacks content beneath it (non-empty text, a childless void element, or - on request - the marker that
+   ignore_empty_paragraphs=False puts into every paragraph) *)
+Theorem C14_final_forest_no_empty_element (o : copts) (d : document) (forest : list (node str)) (msgs : list str) :
+  convert_document_forest o d = Ok (forest, msgs) -> forallb hne forest = true.
+Proof. exact (final_forest_no_empty_element o d forest msgs). Qed.
+
+(* "nothing that does contain such content is removed", through both stages: the content leaves (non-empty texts, markers, childless void
+   elements with their tags) of the output are those of what the visitor emitted, in order, for style maps without :separator whose void tags
+   (br hr img input) are :fresh and are not `|` alternatives of collapsible tags - true of the default map.  Without the second condition
+   collapse can merge a collapsible void element into its equal left neighbour (`p => hr` on two empty paragraphs gives ONE hr, in the
+   implementation too: EmptyFacts.collapse_merges_void_elements); texts and markers are kept even then (C14_solid_content_kept) *)
+Theorem C14_content_kept (o : copts) (d : document) (forest : list (node str)) (msgs : list str) :
+  Forall (fun t => tag_no_sep t = true) (style_tags (o_style_map o)) ->
+  Forall (fun t => tag_void_fresh t = true) (style_tags (o_style_map o)) ->
+  convert_document_forest o d = Ok (forest, msgs) ->
+  exists nodes st, visit_document o d init_state = Ok (nodes, st) /\ content_leaves forest = content_leaves nodes.
+Proof. exact (convert_content_leaves o d forest msgs). Qed.
+
+Theorem C14_solid_content_kept (o : copts) (d : document) (forest : list (node str)) (msgs : list str) :
+  Forall (fun t => tag_no_sep t = true) (style_tags (o_style_map o)) ->
+  convert_document_forest o d = Ok (forest, msgs) ->
+  exists nodes st, visit_document o d init_state = Ok (nodes, st) /\ solid_leaves forest = solid_leaves nodes.
+Proof. exact (convert_solid_leaves o d forest msgs). Qed.
+
+Example C14_default_map_keeps_content :
+  forallb (fun t => tag_no_sep t && tag_void_fresh t) (style_tags DefaultStyleMap.default_style_map) = true.
+Proof. exact default_style_map_hypotheses. Qed.
+
 Print Assumptions C14_dropped_iff_empty.
 Print Assumptions C14_strip_shape.
 Print Assumptions C14_nothing_empty_left.
@@ -74,3 +103,6 @@ Print Assumptions C14_void_elements_are_br_hr_img_input.
 Print Assumptions C14_paragraph_kept_on_request.
 Print Assumptions C14_paragraph_dropped_by_default.
 Print Assumptions C14_structure_kept.
+Print Assumptions C14_final_forest_no_empty_element.
+Print Assumptions C14_content_kept.
+Print Assumptions C14_solid_content_kept.
